@@ -303,11 +303,16 @@ class Indicator(ABC):
 
     def purge(self):
         """Remove this indicator value from all Candles"""
-        self._candles.purge(
-            {self.name}
-            | {indicator.name for indicator in self.sub_indicators.values()}
-            | {indicator.name for indicator in self.managed_indicators.values()}
-        )
+        self._candles.purge(self._purge_names())
+
+    def _purge_names(self) -> set:
+        """Names of this indicator's readings and those of its helpers, at any depth"""
+        names = {self.name}
+        for indicator in self.sub_indicators.values():
+            names |= indicator._purge_names()
+        for indicator in self.managed_indicators.values():
+            names |= indicator._purge_names()
+        return names
 
     def recalculate(self):
         """Re-calculate this indicator value for all Candles"""
